@@ -24,6 +24,7 @@ func verifC03Case(vc *verifCtx, i int, sysCutAt int, schedIdx int) {
 		return
 	}
 	defer e.Close()
+	e.richAdds = true
 	e.oracles = map[string]bool{"retransmit_exact": true, "tx_exact": false}
 	stripDLP := p.TypeName == "legacy" && fr.Chance(1, 2)
 	cut := func(label string) {
